@@ -505,6 +505,10 @@ def run_main(prop, level, fn):
     except HarnessError as e:
         print('HARNESS FAILURE: %s' % e)
         c.fail_harness(str(e)[:500])
+    except Exception as e:      # a defect of the machinery must never look like a verdict (Python would exit 1)
+        import traceback
+        traceback.print_exc()
+        c.fail_harness('uncaught %s in the check script: %s' % (type(e).__name__, str(e)[:300]))
     c.finish()
 
 
